@@ -169,13 +169,23 @@ impl Scheduler for Guided {
             }
             return Some(runnable[0].id());
         }
+        if self.fail.lock().unwrap().is_some() {
+            // already diverged from the model trace: let the execution run to completion on its own
+            if let Some(c) = current {
+                if ids.contains(&usize::from(c)) {
+                    return Some(c);
+                }
+            }
+            return Some(runnable[0].id());
+        }
         let want = self.trace[done].0;
         if ids.contains(&want) {
             Some(TaskId::from(want))
         } else {
-            ipt_verif_rt::stop();
+            // the code cannot follow the model here: the model no longer describes the code.
+            // That is not a property violation by itself - finish the execution and judge its result.
             *self.fail.lock().unwrap() = Some(format!("step {}: model wants actor {} to do '{}' but the runnable tasks are {:?}", done, want, self.trace[done].1, ids));
-            None
+            Some(runnable[0].id())
         }
     }
     fn next_u64(&mut self) -> u64 {
@@ -348,8 +358,16 @@ pub fn run_choices(cfg: &Cfg, choices: &[usize]) -> (Vec<Event>, Option<bool>, O
     (l, o, err)
 }
 
-/// Replay one model trace on the real code; Ok(()) = the code produced exactly this trace and the sequential result.
-pub fn replay_trace(p: usize, trace: &[Event], expected: &RangeResult, params: &Params) -> Result<(), String> {
+pub enum Replayed {
+    Conforms,
+    /// the code ran to completion with the right result but did not follow the model trace
+    BindingLost(String),
+    /// panic, deadlock or wrong result: a violation of the property itself
+    Violation(String),
+}
+
+/// Replay one model trace on the real code.
+pub fn replay_trace(p: usize, trace: &[Event], expected: &RangeResult, params: &Params) -> Replayed {
     let fail = Arc::new(Mutex::new(None));
     let res: Arc<Mutex<Option<(bool, Vec<Event>)>>> = Arc::new(Mutex::new(None));
     let runner = shuttle::Runner::new(Guided { trace: Arc::new(trace.to_vec()), fail: fail.clone(), started: false }, config());
@@ -365,21 +383,21 @@ pub fn replay_trace(p: usize, trace: &[Event], expected: &RangeResult, params: &
         })
     }));
     if run.is_err() {
-        return Err(format!("panic while replaying: {}", take_msg()));
+        return Replayed::Violation(format!("panic while replaying: {}", take_msg()));
     }
-    if let Some(f) = fail.lock().unwrap().clone() {
-        return Err(f);
-    }
+    let diverged = fail.lock().unwrap().clone();
     let taken = res.lock().unwrap().take();
     match taken {
-        None => Err("execution did not complete".into()),
+        None => Replayed::Violation("execution did not complete".into()),
         Some((ok, log)) => {
-            if log != trace {
-                Err(format!("code produced a different event trace: {:?}", log))
-            } else if !ok {
-                Err("trace conforms but the parallel result differs from the sequential one".into())
+            if !ok {
+                Replayed::Violation(format!("the parallel result differs from the sequential one under this schedule (events: {:?})", log))
+            } else if let Some(d) = diverged {
+                Replayed::BindingLost(d)
+            } else if log != trace {
+                Replayed::BindingLost(format!("code produced a different event trace: {:?}", log))
             } else {
-                Ok(())
+                Replayed::Conforms
             }
         }
     }
@@ -474,12 +492,20 @@ pub fn check(tier: &str, std_bin: &str) -> i32 {
     let mut schedules_total = 0u64;
     let mut distinct_traces_total = 0u64;
     let mut walked = 0u64;
+    let mut binding_lost = 0u64;
+    let mut binding_samples: Vec<Value> = vec![];
     let mut per_cfg = vec![];
     let mut fine_unbounded_sets: BTreeMap<usize, HashSet<Vec<String>>> = BTreeMap::new();
     for (kind, c, v) in &results {
         schedules_total += v["schedules"].as_u64().unwrap();
         distinct_traces_total += v["distinct_event_traces"].as_u64().unwrap();
         walked += v["walked_through_model"].as_u64().unwrap();
+        binding_lost += v["binding_lost"].as_u64().unwrap_or(0);
+        for b in v["binding_lost_samples"].as_array().cloned().unwrap_or_default() {
+            if binding_samples.len() < 4 {
+                binding_samples.push(json!({"cfg": c.json(), "sample": b}));
+            }
+        }
         per_cfg.push(json!({"kind": kind, "cfg": c.json(), "partitions": c.partitions(), "schedules": v["schedules"], "max_scheduling_points": v["max_depth"], "distinct_event_traces": v["distinct_event_traces"], "seconds": v["seconds"], "failed": v["failed"]}));
         for f in v["findings"].as_array().cloned().unwrap_or_default() {
             out.violation(f["clause"].as_str().unwrap(), f["case"].clone(), f["detail"].clone());
@@ -526,7 +552,9 @@ pub fn check(tier: &str, std_bin: &str) -> i32 {
             }
         }
         if !bad.is_empty() {
-            out.violation("protocol_model_property", json!({"mode": "model", "partitions": p}), json!(bad));
+            // the model is part of the harness: if its own properties fail the harness is broken
+            eprintln!("MACHINERY: the protocol model violates its own properties for {} partitions: {}", p, json!(bad));
+            return 3;
         }
         states += c.unique_state_count() as u64;
         transitions += c.state_count() as u64;
@@ -546,11 +574,14 @@ pub fn check(tier: &str, std_bin: &str) -> i32 {
         if *set != mset {
             let only_model: Vec<_> = mset.difference(set).take(2).cloned().collect();
             let only_code: Vec<_> = set.difference(&mset).take(2).cloned().collect();
-            out.violation("code_traces_equal_model_traces", json!({"mode": "model", "partitions": p}), json!({"only_in_model": only_model, "only_in_code": only_code, "code": set.len(), "model": mset.len()}));
+            binding_lost += 1;
+            binding_samples.push(json!({"partitions": p, "what": "set of code traces differs from the set of complete model traces", "only_in_model": only_model, "only_in_code": only_code, "code": set.len(), "model": mset.len()}));
         }
     }
     // ---- part 4c: model subset-of code: replay model traces on the real code (guided scheduler)
     let mut replay_rows = vec![];
+    let lost4 = AtomicU64::new(0);
+    let lost4_samples: Mutex<Vec<Value>> = Mutex::new(vec![]);
     let mut replayed_total = 0u64;
     let plan: Vec<(usize, Option<usize>)> = if quick { vec![(1, None), (2, None), (3, None), (4, Some(1)), (5, Some(0))] } else { vec![(1, None), (2, None), (3, None), (4, Some(2)), (5, Some(1)), (6, Some(1))] };
     let mut sample_trace: Vec<String> = vec![];
@@ -561,12 +592,20 @@ pub fn check(tier: &str, std_bin: &str) -> i32 {
         let total = AtomicU64::new(0);
         let bad = AtomicU64::new(0);
         par_for(&ks, |k| {
+            let _ = &lost4;
             let o = std::process::Command::new(&me).args(["child-guided", &p.to_string(), &bound.map(|b| b.to_string()).unwrap_or("none".into()), &k.to_string(), &nchild.to_string()]).output().expect("spawn child");
             let text = String::from_utf8_lossy(&o.stdout).to_string();
             match text.lines().find_map(|l| l.strip_prefix("RESULT ")).and_then(|l| serde_json::from_str::<Value>(l).ok()) {
                 Some(v) => {
-                    total.fetch_add(v["replayed"].as_u64().unwrap(), Ordering::Relaxed);
+                    total.fetch_add(v["replayed"].as_u64().unwrap() - v["binding_lost"].as_u64().unwrap_or(0) - v["non_conforming"].as_u64().unwrap(), Ordering::Relaxed);
                     bad.fetch_add(v["non_conforming"].as_u64().unwrap(), Ordering::Relaxed);
+                    lost4.fetch_add(v["binding_lost"].as_u64().unwrap_or(0), Ordering::Relaxed);
+                    if let Some(b) = v["binding_lost_samples"].as_array().and_then(|a| a.first()) {
+                        let mut g = lost4_samples.lock().unwrap();
+                        if g.len() < 3 {
+                            g.push(json!({"partitions": p, "sample": b}));
+                        }
+                    }
                     for f in v["findings"].as_array().cloned().unwrap_or_default() {
                         out.violation(f["clause"].as_str().unwrap(), f["case"].clone(), f["detail"].clone());
                     }
@@ -583,9 +622,18 @@ pub fn check(tier: &str, std_bin: &str) -> i32 {
             sample_trace = fmt_trace(&all[all.len() / 2]);
         }
         replayed_total += total.load(Ordering::Relaxed);
-        replay_rows.push(json!({"partitions": p, "preemption_bound_on_model_traces": bound, "model_traces_replayed": total.load(Ordering::Relaxed), "non_conforming": bad.load(Ordering::Relaxed), "seconds": t.elapsed().as_secs_f64()}));
+        replay_rows.push(json!({"partitions": p, "preemption_bound_on_model_traces": bound, "model_traces_replayed_and_conforming": total.load(Ordering::Relaxed), "schedules_violating_the_property": bad.load(Ordering::Relaxed), "seconds": t.elapsed().as_secs_f64()}));
     }
+    binding_lost += lost4.load(Ordering::Relaxed);
+    binding_samples.extend(lost4_samples.lock().unwrap().iter().cloned());
     println!("part 4: {} code traces walked through the model, {} model traces replayed on the code ({:.1}s)", walked, replayed_total, t0.elapsed().as_secs_f64());
+    let binding_intact = binding_lost == 0;
+    if !binding_intact {
+        // Not a violation of C15: every explored schedule still returned the sequential result and
+        // terminated (anything else is reported above). But the protocol model no longer describes
+        // this code, so nothing derived from the model is claimed for it.
+        println!("MODEL-BINDING-LOST: {} traces of the code are not behaviours of the protocol model (or vice versa); model-derived coverage is withdrawn for this run. Samples: {}", binding_lost, json!(binding_samples));
+    }
 
     // ---- part 5 result
     let mut sweep_json = json!(null);
@@ -628,7 +676,9 @@ pub fn check(tier: &str, std_bin: &str) -> i32 {
         "coverage": {
             "states": states,
             "transitions": transitions,
-            "traces_validated_against_impl": replayed_total + walked,
+            "traces_validated_against_impl": if binding_intact { replayed_total + walked } else { 0 },
+            "model_binding_intact": binding_intact,
+            "model_binding_lost_samples": binding_samples,
             "traces_validated_breakdown": {"model_traces_replayed_on_the_real_code": replayed_total, "real_code_traces_accepted_by_the_model": walked},
             "samples": [
                 {"kind": "model trace replayed on the real code (actor:event; 0 main, 1 collector, 2+i worker i)", "partitions": 2, "trace": sample_trace},
@@ -674,24 +724,33 @@ pub fn child_cfg(cfg_json: &str, want_traces: bool) -> i32 {
     let t = Instant::now();
     let e = explore_cfg(&cfg, &out);
     let mut walked = 0u64;
+    let mut lost = 0u64;
+    let mut lost_samples: Vec<Value> = vec![];
     for tr in &e.traces {
         match cfg.partitions() {
             None => {
                 if !tr.is_empty() {
-                    out.violation("sequential_branch_spawns_nothing", json!({"mode": "trace", "cfg": cfg.json()}), json!({"trace": fmt_trace(tr)}));
+                    lost += 1;
+                    if lost_samples.len() < 2 {
+                        lost_samples.push(json!({"trace": fmt_trace(tr), "what": "events although the sequential branch is expected"}));
+                    }
                 }
             }
             Some(p) => {
                 walked += 1;
                 if let Err(err) = model::walk(p, tr) {
-                    out.violation("code_trace_is_a_model_behaviour", json!({"mode": "trace", "cfg": cfg.json(), "partitions": p, "trace": fmt_trace(tr)}), json!({"error": err}));
+                    walked -= 1;
+                    lost += 1;
+                    if lost_samples.len() < 2 {
+                        lost_samples.push(json!({"trace": fmt_trace(tr), "what": err}));
+                    }
                 }
             }
         }
     }
     let traces: Option<Vec<Vec<String>>> = if want_traces { Some(e.traces.iter().map(|t| fmt_trace(t)).collect()) } else { None };
     let findings = out.collect.as_ref().unwrap().lock().unwrap().clone();
-    println!("RESULT {}", json!({"schedules": e.schedules, "max_depth": e.max_depth, "distinct_event_traces": e.traces.len(), "walked_through_model": walked, "failed": e.failed, "seconds": t.elapsed().as_secs_f64(), "findings": findings, "traces": traces}));
+    println!("RESULT {}", json!({"schedules": e.schedules, "max_depth": e.max_depth, "distinct_event_traces": e.traces.len(), "walked_through_model": walked, "failed": e.failed, "seconds": t.elapsed().as_secs_f64(), "findings": findings, "traces": traces, "binding_lost": lost, "binding_lost_samples": lost_samples}));
     0
 }
 
@@ -703,20 +762,31 @@ pub fn child_guided(p: usize, bound: Option<usize>, k: usize, n: usize) -> i32 {
     let mut idx = 0usize;
     let mut replayed = 0u64;
     let mut bad = 0u64;
+    let mut lost = 0u64;
+    let mut lost_samples = vec![];
     let mut findings = vec![];
     model::traces(p, bound, |tr| {
         if idx % n == k {
             replayed += 1;
-            if let Err(e) = replay_trace(p, tr, &expected, &params) {
-                bad += 1;
-                if findings.len() < 2 {
-                    findings.push(json!({"clause": "model_trace_replays_on_the_code", "case": {"mode": "guided", "partitions": p, "trace": fmt_trace(tr)}, "detail": {"error": e}}));
+            match replay_trace(p, tr, &expected, &params) {
+                Replayed::Conforms => {}
+                Replayed::BindingLost(e) => {
+                    lost += 1;
+                    if lost_samples.len() < 2 {
+                        lost_samples.push(json!({"trace": fmt_trace(tr), "what": e}));
+                    }
+                }
+                Replayed::Violation(e) => {
+                    bad += 1;
+                    if findings.len() < 2 {
+                        findings.push(json!({"clause": "schedule_from_model_trace_breaks_the_property", "case": {"mode": "guided", "partitions": p, "trace": fmt_trace(tr)}, "detail": {"error": e}}));
+                    }
                 }
             }
         }
         idx += 1;
     });
-    println!("RESULT {}", json!({"replayed": replayed, "non_conforming": bad, "findings": findings}));
+    println!("RESULT {}", json!({"replayed": replayed, "non_conforming": bad, "binding_lost": lost, "binding_lost_samples": lost_samples, "findings": findings}));
     0
 }
 
@@ -751,11 +821,15 @@ pub fn replay(path: &str, std_bin: &str) -> i32 {
             let params = Params::new(Method::Isna);
             let expected = prayer_times_dt_rng(&params, location(), &range(p as i64));
             match replay_trace(p, &trace, &expected, &params) {
-                Ok(()) => {
-                    println!("NOT REPRODUCED property=C15 (trace conforms)");
+                Replayed::Conforms => {
+                    println!("NOT REPRODUCED property=C15 (trace conforms, result equals the sequential one)");
                     0
                 }
-                Err(e) => {
+                Replayed::BindingLost(e) => {
+                    println!("NOT REPRODUCED property=C15 (result equals the sequential one; the code no longer follows this model trace: {})", e);
+                    0
+                }
+                Replayed::Violation(e) => {
                     println!("REPRODUCED property=C15: {}", e);
                     1
                 }
